@@ -100,7 +100,39 @@ class FullGen(Gen):
             return "[%s]" % ", ".join(self.any_expr(sc, 1) for _ in range(self.r.randint(0, 3)))
         if ty == FLT:
             return self.float_expr(sc)
+        if ty == BOOL and d < self.max_depth and self.p(0.18):
+            return self.mixed_cmp(sc, d)
         return super().expr(sc, ty, d)
+
+    def mixed_cmp(self, sc, d):
+        """Comparisons whose one operand is a constant the compiler can see and whose other operand is a
+        run-time value of another representation (integral float vs int literal, anything vs None/str/bool
+        literal, type(x) == "..."): the specialised comparison paths."""
+        r = self.r
+        k = r.randrange(9)
+        vs = sc.all_vars()
+        intlit = str(r.choice([0, 1, 2, 3, -1, 4, 5, 7, 10, -2]))
+        if k == 0:
+            a, b = self.float_expr(sc), intlit
+        elif k == 1:
+            a, b = "float(%s)" % self.expr(sc, INT, d + 2), intlit
+        elif k == 2:
+            a, b = "(%s / 2)" % self.expr(sc, INT, d + 2), intlit
+        elif k == 3:
+            a, b = self.expr(sc, INT, d + 2), self.ch(["1.0", "2.0", "0.0", "-1.0", "3.0", "0.5"])
+        elif k == 4 and vs:
+            a, b = self.ch(vs).name, self.ch(["None", "0", "1", '""', '"a"', "True", "False", "()", "[]", "{}", "1.0", "(1, 2)"])
+        elif k == 5 and vs:
+            return "(type(%s) %s %s)" % (self.ch(vs).name, self.ch(["==", "!="]), self.ch(['"int"', '"string"', '"list"', '"float"', '"dict"', '"tuple"', '"bool"']))
+        elif k == 6 and vs:
+            return "(%s %s %s)" % (self.ch(vs).name, self.ch(["in", "not in"]), self.ch(["[1, 2.0, \"a\", None]", "(0, 1.0, True, \"\")", "[[], (), 3.0]"]))
+        elif k == 7:
+            return "(%s %s %s)" % (self.float_expr(sc), self.ch(["<", "<=", ">", ">="]), self.ch([intlit, "0.5", "2.0"]))
+        else:
+            a, b = self.expr(sc, STR, d + 2), self.ch(['""', '"a"', '"ab"', '"0"', '"12"', '"hello"'])
+        if self.p(0.5):
+            a, b = b, a
+        return "(%s %s %s)" % (a, self.ch(["==", "==", "!="]), b)
 
     # ---- extra statements
     def stmt(self, sc, indent):
